@@ -4,6 +4,7 @@ import (
 	"gtsverif/core"
 	"gtsverif/engines/cachekey"
 	"gtsverif/engines/conserve"
+	"gtsverif/engines/effects"
 	"gtsverif/engines/integrity"
 	"gtsverif/engines/orders"
 	"gtsverif/engines/tables"
@@ -32,6 +33,7 @@ func init() {
 	register("C04", false, func(p *core.Prog, r *core.Report, tier string) { conserve.C04(p, r) })
 	register("C05", false, func(p *core.Prog, r *core.Report, tier string) { conserve.C05(p, r) })
 	register("C15", false, func(p *core.Prog, r *core.Report, tier string) { conserve.C15(p, r) })
+	register("C11", true, func(p *core.Prog, r *core.Report, tier string) { effects.C11(p, r) })
 	register("C13", false, func(p *core.Prog, r *core.Report, tier string) { integrity.C13(p, r) })
 	register("C14", false, func(p *core.Prog, r *core.Report, tier string) { cachekey.C14(p, r) })
 }
